@@ -183,6 +183,11 @@ func runC07(c *eng.Ctx) {
 	ruleCandidate(c)
 	c.Floor(4)
 
+	// ---- R07.9 persisted ISR follows the in-memory ISR
+	c.Rule("R07.9", "K2")
+	ruleISRPersisted(c)
+	c.Floor(2)
+
 	// ---- R07.5 epochs only grow
 	c.Rule("R07.5", "K1m")
 	le := p.DepFieldOrModule("server/protocol", "Partition", "LeaderEpoch")
